@@ -4,6 +4,7 @@ import VlsModel.Gen.FnChannel
 import VlsModel.Gen.FnTxUtil
 import VlsModel.Gen.FnHtlcTx
 import VlsModel.Gen.FnOnchainWrap
+import VlsModel.Gen.FnChannelSweep
 import VlsModel.Lemmas.NodeWalletFn
 import VlsModel.Lemmas.Sweep
 import VlsModel.Lemmas.FnGen
@@ -879,5 +880,286 @@ theorem C09_fn_onchain_validate_delayed_sweep_simple (v : SimpleValidator) (d : 
   C09_fn_validate_delayed_sweep v d tx ins hins input amount h delay hi
 
 end OnchainWrap
+
+/-! ## Round 9: the entry points `Channel::sign_delayed_sweep / sign_counterparty_htlc_sweep / sign_justice_sweep`
+(`vls-core/src/channel.rs`, `Gen/FnChannelSweep.lean`)
+
+Which check comes first, which validator method is consulted, **which key signs which digest over which amount**.  The
+`*_spec` theorems hold for every instantiation of the externals (validator, sighash, key derivation, signing — passed by
+name): the signature is `sign(p2wsh_sighash_all(tx, input, redeemscript, amount), derive(point or secret, base key))` with
+the delayed-payment / HTLC / revocation base key respectively, and it is produced only after the input-index check,
+(`get_per_commitment_point`,) and the validator method of the *same* sweep kind accepted.  The `*_model` theorems compose
+with the ties of the regenerated `SimpleValidator` methods above: entry point = `Sweep.sign…Sweep` including the front
+checks (formerly "model only").  Normalisation rules `sweep_sighash*`, `sweep_revocation_key`. -/
+section ChannelSweep
+open VlsModel.Gen.FnChannelSweep (Channel)
+abbrev CTx (I : Type) := Gen.FnChannelSweep.Transaction I
+abbrev CSetup := Gen.FnChannelSweep.ChannelSetup
+
+variable {Secp SK I Scr DP Sig PK Val Nd CS Msg : Type}
+
+theorem C09_fn_sign_delayed_sweep_spec (pcpE : Nat → Rs.M PK) (val : Val) (node : Nd) (cs : CS)
+    (V : Val → Nd → CSetup → CS → CTx I → Nat → Nat → DP → Rs.M Unit) (S : CTx I → Nat → Scr → Nat → Rs.M Msg)
+    (D : Secp → PK → SK → SK) (G : Secp → Msg → SK → Sig)
+    (ch : Channel Secp SK) (tx : CTx I) (input n : Nat) (script : Scr) (amount : Nat) (path : DP) :
+    Channel.sign_delayed_sweep (ext_self_get_per_commitment_point := pcpE) (ext_self_validator := val) (ext_self_get_node := node)
+        (ext_self_get_chain_state := cs) (ext_Validator_validate_delayed_sweep := V) (ext_p2wsh_sighash_all := S)
+        (ext_derive_private_key := D) (ext_secp_ctx_sign_ecdsa := G) ch tx input n script amount path
+      = (if tx.input.length ≤ input then Rs.fail "invalid-argument"
+        else do
+          let point ← pcpE n
+          V val node ch.setup cs tx input amount path
+          let digest ← S tx input script amount
+          pure (G ch.secp_ctx digest (D ch.secp_ctx point ch.keys.delayed_payment_base_key))) := by
+  unfold Channel.sign_delayed_sweep
+  by_cases h : tx.input.length ≤ input <;> simp [h, GE.ge]
+
+theorem C09_fn_sign_counterparty_htlc_sweep_spec (val : Val) (node : Nd) (cs : CS)
+    (V : Val → Nd → CSetup → CS → CTx I → Scr → Nat → Nat → DP → Rs.M Unit) (S : CTx I → Nat → Scr → Nat → Rs.M Msg)
+    (D : Secp → PK → SK → SK) (G : Secp → Msg → SK → Sig)
+    (ch : Channel Secp SK) (tx : CTx I) (input : Nat) (point : PK) (script : Scr) (amount : Nat) (path : DP) :
+    Channel.sign_counterparty_htlc_sweep (ext_self_validator := val) (ext_self_get_node := node)
+        (ext_self_get_chain_state := cs) (ext_Validator_validate_counterparty_htlc_sweep := V) (ext_p2wsh_sighash_all_buf := S)
+        (ext_derive_private_key := D) (ext_secp_ctx_sign_ecdsa := G) ch tx input point script amount path
+      = (if tx.input.length ≤ input then Rs.fail "invalid-argument"
+        else do
+          V val node ch.setup cs tx script input amount path
+          let digest ← S tx input script amount
+          pure (G ch.secp_ctx digest (D ch.secp_ctx point ch.keys.htlc_base_key))) := by
+  unfold Channel.sign_counterparty_htlc_sweep
+  by_cases h : tx.input.length ≤ input <;> simp [h, GE.ge]
+
+theorem C09_fn_sign_justice_sweep_spec (val : Val) (node : Nd) (cs : CS)
+    (V : Val → Nd → CSetup → CS → CTx I → Nat → Nat → DP → Rs.M Unit) (S : CTx I → Nat → Scr → Nat → Rs.M Msg)
+    (D : Secp → SK → SK → SK) (G : Secp → Msg → SK → Sig)
+    (ch : Channel Secp SK) (tx : CTx I) (input : Nat) (secret : SK) (script : Scr) (amount : Nat) (path : DP) :
+    Channel.sign_justice_sweep (ext_self_validator := val) (ext_self_get_node := node)
+        (ext_self_get_chain_state := cs) (ext_Validator_validate_justice_sweep := V) (ext_p2wsh_sighash_all := S)
+        (ext_derive_private_revocation_key := D) (ext_secp_ctx_sign_ecdsa := G) ch tx input secret script amount path
+      = (if tx.input.length ≤ input then Rs.fail "invalid-argument"
+        else do
+          V val node ch.setup cs tx input amount path
+          let digest ← S tx input script amount
+          pure (G ch.secp_ctx digest (D ch.secp_ctx secret ch.keys.revocation_base_key))) := by
+  unfold Channel.sign_justice_sweep
+  by_cases h : tx.input.length ≤ input <;> simp [h, GE.ge]
+
+theorem rel_map_bind {σ : Type} (m : Rs.M Unit) (x : σ) :
+    rel ((m >>= fun _ => (Except.ok x : Rs.M σ)).map fun _ => ()) = rel m := by
+  cases m <;> rfl
+
+/-- the three entry points with the **regenerated `SimpleValidator` methods** as the validator, a symbolic digest
+    `(input, script, amount)`, symbolic key derivation and signing; `get_per_commitment_point` succeeds iff `commitOk` -/
+def pcpE (commitOk : Bool) (point : Nat) : Nat → Rs.M Nat := fun _ => if commitOk then .ok point else Rs.fail "policy-error"
+def digestE {T : Type} : T → Nat → SweepOut → Nat → Rs.M (Nat × SweepOut × Nat) := fun _ i s a => .ok (i, s, a)
+
+def delayedGen (v : SimpleValidator) (d : Bool) (tx : SweepTx) (h delay : Nat) (commitOk : Bool) (point : Nat)
+    (ch : Channel Unit Nat) (ins : List GTxIn) (input n : Nat) (script : SweepOut) (amount : Nat) :=
+  Channel.sign_delayed_sweep (ext_self_get_per_commitment_point := pcpE commitOk point) (ext_self_validator := v)
+    (ext_self_get_node := ()) (ext_self_get_chain_state := ({ current_height := h } : ChainState))
+    (ext_Validator_validate_delayed_sweep := fun v w _ c (t : CTx GTxIn) i a p =>
+      SimpleValidator.validate_delayed_sweep (ext_can_spend := canSpendE) (ext_allowlist_contains := allowE) (policy_filter_err := filt d)
+        (ext_height_from_consensus := heightE) (ext_is_satisfied_by_height := satisfiedE) v w
+        { counterparty_selected_contest_delay := delay } c (toTx tx t.input) i a p)
+    (ext_p2wsh_sighash_all := digestE) (ext_derive_private_key := fun _ p k => p + k)
+    (ext_secp_ctx_sign_ecdsa := fun _ m k => (m, k)) ch { input := ins } input n script amount ()
+
+/-- **`Channel::sign_delayed_sweep` = `Sweep.signDelayedSweep`** behind a valid input index … -/
+theorem C09_fn_sign_delayed_sweep_model (v : SimpleValidator) (d : Bool) (tx : SweepTx) (ins : List GTxIn) (hins : InsOf tx ins)
+    (input amount h delay n point : Nat) (commitOk : Bool) (ch : Channel Unit Nat) (script : SweepOut) (hi : input < tx.nInputs) :
+    rel ((delayedGen v d tx h delay commitOk point ch ins input n script amount).map fun _ => ())
+      = signDelayedSweep d tx input commitOk h delay := by
+  unfold delayedGen
+  rw [C09_fn_sign_delayed_sweep_spec]
+  have hl : ¬ ins.length ≤ input := by rw [hins.1]; omega
+  have hm := C09_fn_validate_delayed_sweep v d tx ins hins input amount h delay hi
+  cases commitOk with
+  | false => simp [hl, pcpE, Rs.fail, rel, signDelayedSweep, Nat.not_le.mpr hi, bind, Except.bind, Except.map]
+  | true =>
+    simp only [hl, if_false, pcpE, if_true, Rs.bind_ok, digestE, Rs.pure_eq]
+    rw [rel_map_bind, hm]
+
+/-- … and the front check: a bad input index is `invalid_argument` in both -/
+theorem C09_fn_sign_delayed_sweep_bad_input (v : SimpleValidator) (d : Bool) (tx : SweepTx) (ins : List GTxIn) (hins : InsOf tx ins)
+    (input amount h delay n point : Nat) (commitOk : Bool) (ch : Channel Unit Nat) (script : SweepOut) (hi : tx.nInputs ≤ input) :
+    delayedGen v d tx h delay commitOk point ch ins input n script amount = Rs.fail "invalid-argument"
+      ∧ signDelayedSweep d tx input commitOk h delay = .errInvalid := by
+  unfold delayedGen
+  rw [C09_fn_sign_delayed_sweep_spec]
+  have hl : ins.length ≤ input := by rw [hins.1]; exact hi
+  simp [hl, signDelayedSweep, hi]
+
+/-- on success the signature is made with the delayed-payment base key tweaked by the per-commitment point, over the
+    digest of exactly (input, redeemscript, amount) -/
+theorem C09_fn_sign_delayed_sweep_signs (v : SimpleValidator) (d : Bool) (tx : SweepTx) (ins : List GTxIn)
+    (input amount h delay n point : Nat) (commitOk : Bool) (ch : Channel Unit Nat) (script : SweepOut) (sig : (Nat × SweepOut × Nat) × Nat)
+    (hs : delayedGen v d tx h delay commitOk point ch ins input n script amount = .ok sig) :
+    sig = ((input, script, amount), point + ch.keys.delayed_payment_base_key) ∧ commitOk = true ∧ input < ins.length := by
+  unfold delayedGen at hs
+  rw [C09_fn_sign_delayed_sweep_spec] at hs
+  by_cases hl : ins.length ≤ input
+  · simp [hl, Rs.fail] at hs
+  · cases commitOk with
+    | false => simp [hl, pcpE, Rs.fail, bind, Except.bind] at hs
+    | true =>
+      simp only [hl, if_false, pcpE, if_true, Rs.bind_ok, digestE, Rs.pure_eq] at hs
+      refine ⟨?_, rfl, by omega⟩
+      revert hs
+      generalize SimpleValidator.validate_delayed_sweep _ _ _ _ _ _ _ _ _ _ _ _ _ = m
+      cases m with
+      | ok u => intro hs; simp [bind, Except.bind] at hs; exact hs.symm
+      | error e => intro hs; simp [bind, Except.bind] at hs
+
+def justiceGen (v : SimpleValidator) (d : Bool) (tx : SweepTx) (h delay : Nat)
+    (ch : Channel Unit Nat) (ins : List GTxIn) (input secret : Nat) (script : SweepOut) (amount : Nat) :=
+  Channel.sign_justice_sweep (ext_self_validator := v)
+    (ext_self_get_node := ()) (ext_self_get_chain_state := ({ current_height := h } : ChainState))
+    (ext_Validator_validate_justice_sweep := fun v w _ c (t : CTx GTxIn) i a p =>
+      SimpleValidator.validate_justice_sweep (ext_can_spend := canSpendE) (ext_allowlist_contains := allowE) (policy_filter_err := filt d)
+        (ext_height_from_consensus := heightE) (ext_is_satisfied_by_height := satisfiedE) v w
+        { counterparty_selected_contest_delay := delay } c (toTx tx t.input) i a p)
+    (ext_p2wsh_sighash_all := digestE) (ext_derive_private_revocation_key := fun _ s k => s + k)
+    (ext_secp_ctx_sign_ecdsa := fun _ m k => (m, k)) ch { input := ins } input secret script amount ()
+
+theorem C09_fn_sign_justice_sweep_model (v : SimpleValidator) (d : Bool) (tx : SweepTx) (ins : List GTxIn) (hins : InsOf tx ins)
+    (input amount h delay secret : Nat) (ch : Channel Unit Nat) (script : SweepOut) (hi : input < tx.nInputs) :
+    rel ((justiceGen v d tx h delay ch ins input secret script amount).map fun _ => ())
+      = signJusticeSweep d tx input h := by
+  unfold justiceGen
+  rw [C09_fn_sign_justice_sweep_spec]
+  have hl : ¬ ins.length ≤ input := by rw [hins.1]; omega
+  have hm := C09_fn_validate_justice_sweep v d tx ins hins input amount h delay hi
+  simp only [hl, if_false, Rs.bind_ok, digestE, Rs.pure_eq]
+  rw [rel_map_bind, hm]
+
+theorem C09_fn_sign_justice_sweep_bad_input (v : SimpleValidator) (d : Bool) (tx : SweepTx) (ins : List GTxIn) (hins : InsOf tx ins)
+    (input amount h delay secret : Nat) (ch : Channel Unit Nat) (script : SweepOut) (hi : tx.nInputs ≤ input) :
+    justiceGen v d tx h delay ch ins input secret script amount = Rs.fail "invalid-argument"
+      ∧ signJusticeSweep d tx input h = .errInvalid := by
+  unfold justiceGen
+  rw [C09_fn_sign_justice_sweep_spec]
+  have hl : ins.length ≤ input := by rw [hins.1]; exact hi
+  simp [hl, signJusticeSweep, hi]
+
+def cpHtlcGen (v : SimpleValidator) (d : Bool) (tx : SweepTx) (h delay : Nat) (hscript : HtlcScript) (anchors : Bool)
+    (ch : Channel Unit Nat) (ins : List GTxIn) (input point : Nat) (script : SweepOut) (amount : Nat) :=
+  Channel.sign_counterparty_htlc_sweep (ext_self_validator := v)
+    (ext_self_get_node := ()) (ext_self_get_chain_state := ({ current_height := h } : ChainState))
+    (ext_Validator_validate_counterparty_htlc_sweep := fun v w _ c (t : CTx GTxIn) rs i a p =>
+      SimpleValidator.validate_counterparty_htlc_sweep (ext_can_spend := canSpendE) (ext_allowlist_contains := allowE) (policy_filter_err := filt d)
+        (ext_is_anchors := fun _ => anchors)
+        (ext_received_htlc_cltv := fun (_ : SweepOut) a => received? hscript a) (ext_to_consensus_u32 := fun (lt : Nat) => lt)
+        (ext_is_offered_htlc_script := fun (_ : SweepOut) a => offered? hscript a)
+        (ext_height_from_consensus := heightE) (ext_is_satisfied_by_height := satisfiedE) v w
+        { counterparty_selected_contest_delay := delay } c (toTx tx t.input) rs i a p)
+    (ext_p2wsh_sighash_all_buf := digestE) (ext_derive_private_key := fun _ p k => p + k)
+    (ext_secp_ctx_sign_ecdsa := fun _ m k => (m, k)) ch { input := ins } input point script amount ()
+
+theorem C09_fn_sign_counterparty_htlc_sweep_model (v : SimpleValidator) (d : Bool) (tx : SweepTx) (ins : List GTxIn) (hins : InsOf tx ins)
+    (input amount h delay point : Nat) (hscript : HtlcScript) (anchors : Bool) (ch : Channel Unit Nat) (script : SweepOut)
+    (hi : input < tx.nInputs) :
+    rel ((cpHtlcGen v d tx h delay hscript anchors ch ins input point script amount).map fun _ => ())
+      = signCounterpartyHtlcSweep d tx input hscript anchors h := by
+  unfold cpHtlcGen
+  rw [C09_fn_sign_counterparty_htlc_sweep_spec]
+  have hl : ¬ ins.length ≤ input := by rw [hins.1]; omega
+  have hm := C09_fn_validate_counterparty_htlc_sweep v d tx ins hins input amount h delay hscript anchors script hi
+  simp only [hl, if_false, Rs.bind_ok, digestE, Rs.pure_eq]
+  rw [rel_map_bind, hm]
+
+theorem C09_fn_sign_counterparty_htlc_sweep_bad_input (v : SimpleValidator) (d : Bool) (tx : SweepTx) (ins : List GTxIn) (hins : InsOf tx ins)
+    (input amount h delay point : Nat) (hscript : HtlcScript) (anchors : Bool) (ch : Channel Unit Nat) (script : SweepOut)
+    (hi : tx.nInputs ≤ input) :
+    cpHtlcGen v d tx h delay hscript anchors ch ins input point script amount = Rs.fail "invalid-argument"
+      ∧ signCounterpartyHtlcSweep d tx input hscript anchors h = .errInvalid := by
+  unfold cpHtlcGen
+  rw [C09_fn_sign_counterparty_htlc_sweep_spec]
+  have hl : ins.length ≤ input := by rw [hins.1]; exact hi
+  simp [hl, signCounterpartyHtlcSweep, hi]
+
+/-! ### the second-level HTLC transaction entry points `sign_htlc_tx`, `sign_holder_htlc_tx`, `sign_counterparty_htlc_tx`
+
+`sign_htlc_tx` signs **only after** `decode_and_validate_htlc_tx` and then `validate_htlc_tx` (same validator, the decoded
+HTLC and fee rate handed from the first to the second) accepted; the signature is over the *recomposed* sighash the decoder
+returned (not over the submitted transaction), with the HTLC base key tweaked by the per-commitment point, and carries the
+sighash type the decoder chose.  The holder variant validates with `is_counterparty = false` and the holder's tx keys at the
+supplied point (or at `get_per_commitment_point(commitment_number)`), the counterparty variant with `true` and the
+counterparty's tx keys.  Together with `C09_fn_decode_and_validate_htlc_tx` and `C09_fn_validate_htlc_tx` (the regenerated
+`SimpleValidator` methods = `Sweep.signHtlcTx` / `validateHtlcTx`) this is clause 6/7 from the handler's entry to the signature. -/
+
+variable {TK H SH ET : Type}
+
+theorem C09_fn_sign_htlc_tx_spec (val : Val) (cs : CS)
+    (Dec : Val → Bool → CSetup → TK → CTx I → Scr → Nat → Scr → Rs.M (Nat × H × SH × ET))
+    (Vh : Val → CSetup → CS → Bool → H → Nat → Rs.M Unit)
+    (D : Secp → PK → SK → SK) (M : SH → Msg) (G : Secp → Msg → SK → Sig)
+    (ch : Channel Secp SK) (tx : CTx I) (point : PK) (rs : Scr) (amount : Nat) (ws : Scr) (isCp : Bool) (txkeys : TK) :
+    Channel.sign_htlc_tx (ext_self_validator := val) (ext_Validator_decode_and_validate_htlc_tx := Dec)
+        (ext_self_get_chain_state := cs) (ext_Validator_validate_htlc_tx := Vh) (ext_derive_private_key := D)
+        (ext_message_of_sighash := M) (ext_secp_ctx_sign_ecdsa := G) ch tx point rs amount ws isCp txkeys
+      = (Dec val isCp ch.setup txkeys tx rs amount ws >>= fun t =>
+          Vh val ch.setup cs isCp t.2.1 t.1 >>= fun _ =>
+            pure { sig := G ch.secp_ctx (M t.2.2.1) (D ch.secp_ctx point ch.keys.htlc_base_key), typ := t.2.2.2 }) := by
+  unfold Channel.sign_htlc_tx
+  congr 1
+
+theorem C09_fn_sign_holder_htlc_tx_spec (pcpF : Nat → Rs.M PK) (HK : PK → TK) (val : Val) (cs : CS)
+    (Dec : Val → Bool → CSetup → TK → CTx I → Scr → Nat → Scr → Rs.M (Nat × H × SH × ET))
+    (Vh : Val → CSetup → CS → Bool → H → Nat → Rs.M Unit)
+    (D : Secp → PK → SK → SK) (M : SH → Msg) (G : Secp → Msg → SK → Sig)
+    (ch : Channel Secp SK) (tx : CTx I) (n : Nat) (opt : Option PK) (rs : Scr) (amount : Nat) (ws : Scr) :
+    Channel.sign_holder_htlc_tx (ext_self_get_per_commitment_point := pcpF) (ext_self_make_holder_tx_keys := HK)
+        (ext_self_validator := val) (ext_Validator_decode_and_validate_htlc_tx := Dec)
+        (ext_self_get_chain_state := cs) (ext_Validator_validate_htlc_tx := Vh) (ext_derive_private_key := D)
+        (ext_message_of_sighash := M) (ext_secp_ctx_sign_ecdsa := G) ch tx n opt rs amount ws
+      = ((match opt with | some p => pure p | none => pcpF n) >>= fun point =>
+          Channel.sign_htlc_tx (ext_self_validator := val) (ext_Validator_decode_and_validate_htlc_tx := Dec)
+            (ext_self_get_chain_state := cs) (ext_Validator_validate_htlc_tx := Vh) (ext_derive_private_key := D)
+            (ext_message_of_sighash := M) (ext_secp_ctx_sign_ecdsa := G) ch tx point rs amount ws false (HK point)) := by
+  unfold Channel.sign_holder_htlc_tx
+  cases opt with
+  | none => cases h : pcpF n <;> simp [h, bind, Except.bind, pure, Except.pure]
+  | some p => simp [Rs.unwrap, bind, Except.bind, pure, Except.pure]
+
+theorem C09_fn_sign_counterparty_htlc_tx_spec (CK : PK → TK) (val : Val) (cs : CS)
+    (Dec : Val → Bool → CSetup → TK → CTx I → Scr → Nat → Scr → Rs.M (Nat × H × SH × ET))
+    (Vh : Val → CSetup → CS → Bool → H → Nat → Rs.M Unit)
+    (D : Secp → PK → SK → SK) (M : SH → Msg) (G : Secp → Msg → SK → Sig)
+    (ch : Channel Secp SK) (tx : CTx I) (point : PK) (rs : Scr) (amount : Nat) (ws : Scr) :
+    Channel.sign_counterparty_htlc_tx (ext_self_make_counterparty_tx_keys := CK)
+        (ext_self_validator := val) (ext_Validator_decode_and_validate_htlc_tx := Dec)
+        (ext_self_get_chain_state := cs) (ext_Validator_validate_htlc_tx := Vh) (ext_derive_private_key := D)
+        (ext_message_of_sighash := M) (ext_secp_ctx_sign_ecdsa := G) ch tx point rs amount ws
+      = Channel.sign_htlc_tx (ext_self_validator := val) (ext_Validator_decode_and_validate_htlc_tx := Dec)
+          (ext_self_get_chain_state := cs) (ext_Validator_validate_htlc_tx := Vh) (ext_derive_private_key := D)
+          (ext_message_of_sighash := M) (ext_secp_ctx_sign_ecdsa := G) ch tx point rs amount ws true (CK point) := rfl
+
+/-- a signature leaves `sign_htlc_tx` only if both validator calls accepted, and then it is the signature over the
+    decoder's recomposed sighash with the tweaked HTLC base key, typed as the decoder said -/
+theorem C09_fn_sign_htlc_tx_signs (val : Val) (cs : CS)
+    (Dec : Val → Bool → CSetup → TK → CTx I → Scr → Nat → Scr → Rs.M (Nat × H × SH × ET))
+    (Vh : Val → CSetup → CS → Bool → H → Nat → Rs.M Unit)
+    (D : Secp → PK → SK → SK) (M : SH → Msg) (G : Secp → Msg → SK → Sig)
+    (ch : Channel Secp SK) (tx : CTx I) (point : PK) (rs : Scr) (amount : Nat) (ws : Scr) (isCp : Bool) (txkeys : TK)
+    (out : Gen.FnChannelSweep.TypedSignature Sig ET)
+    (h : Channel.sign_htlc_tx (ext_self_validator := val) (ext_Validator_decode_and_validate_htlc_tx := Dec)
+        (ext_self_get_chain_state := cs) (ext_Validator_validate_htlc_tx := Vh) (ext_derive_private_key := D)
+        (ext_message_of_sighash := M) (ext_secp_ctx_sign_ecdsa := G) ch tx point rs amount ws isCp txkeys = .ok out) :
+    ∃ fr htlc sh ty, Dec val isCp ch.setup txkeys tx rs amount ws = .ok (fr, htlc, sh, ty)
+      ∧ Vh val ch.setup cs isCp htlc fr = .ok ()
+      ∧ out = { sig := G ch.secp_ctx (M sh) (D ch.secp_ctx point ch.keys.htlc_base_key), typ := ty } := by
+  rw [C09_fn_sign_htlc_tx_spec] at h
+  cases hd : Dec val isCp ch.setup txkeys tx rs amount ws with
+  | error e => simp [hd, bind, Except.bind] at h
+  | ok t =>
+    obtain ⟨fr, htlc, sh, ty⟩ := t
+    simp only [hd, Rs.bind_ok] at h
+    cases hv : Vh val ch.setup cs isCp htlc fr with
+    | error e => simp [hv, bind, Except.bind] at h
+    | ok u =>
+      simp only [hv, Rs.bind_ok, Rs.pure_eq, Except.ok.injEq] at h
+      exact ⟨fr, htlc, sh, ty, rfl, by cases u; exact hv, h.symm⟩
+
+end ChannelSweep
 
 end VlsModel.Props.C09Fn
